@@ -59,6 +59,15 @@ func verifC03Multi(ne, nBlocks, nTxs int) (*MultiEpoch, []*Epoch) {
 	return multi, eps
 }
 
+func verifC03AnyCollision(eps []*Epoch) bool {
+	for _, e := range eps {
+		if verifC03Stores[e].collided {
+			return true
+		}
+	}
+	return false
+}
+
 // verifC03Archived: branch-free "slot q is a block of one of the loaded epochs".
 func verifC03Archived(eps []*Epoch, q uint64) uint64 {
 	a := uint64(0)
@@ -86,6 +95,9 @@ func VerifC03GrpcBlock() {
 	if err != nil {
 		if archived == 0 {
 			verifAssert(strings.Contains(err.Error(), "code = NotFound"), "C03.grpcblock: slot that is not archived is not answered with NotFound")
+		} else if !verifC03AnyCollision(eps) {
+			// the only legitimate failure for an archived slot: its parent block cannot be fetched
+			verifAssert(strings.Contains(err.Error(), "parent"), "C03.grpcblock: archived slot answered with an error")
 		}
 	} else {
 		verifAssert(resp != nil, "C03.grpcblock: nil response without error")
